@@ -327,7 +327,7 @@ pub struct ConfTag {
 }
 
 pub fn conf_tag() -> impl Strategy<Value = ConfTag> {
-    (1u32..=21, prop_oneof![4 => 0u16..5, 1 => 5u16..30], any::<u32>(), any::<u64>())
+    (1u32..=21, prop_oneof![8 => 0u16..5, 2 => 5u16..30, 1 => 30u16..200], any::<u32>(), any::<u64>())
         .prop_map(|(kind, n, mut sel, key)| {
             // framebuffer: every second tag carries one of the three defined type
             // bytes (the other half is uniform over all 256 values)
